@@ -29,7 +29,7 @@ func init() {
 }
 
 func init() {
-	props["C04"] = []Stream{{"config", genCfg}, {"merge", genMerge}, {"c04-oracle", genMergeStep}}
+	props["C04"] = []Stream{{"config", genCfg}, {"merge", genMerge}, {"c04-oracle", genMergeStep}, {"c04-load", genTxnFlavor("c04")}}
 }
 
 func init() {
